@@ -148,8 +148,10 @@ def check(ctx: Ctx) -> str:
             # and consumes the root generator through the same concat hook as its async form
             af = ci.methods.get(asyncform)
             if af is not None:
-                c1 = [astq.callee(c) for c in astq.calls(fn) if astq.callee(c).endswith(".concat")]
-                c2 = [astq.callee(c) for c in astq.calls(af) if astq.callee(c).endswith(".concat")]
+                from ..normalize import norm as _n
+
+                c1 = [astq.callee(c) for c in astq.calls(_n(fn)) if astq.callee(c).endswith(".concat")]
+                c2 = [astq.callee(c) for c in astq.calls(_n(af)) if astq.callee(c).endswith(".concat")]
                 ctx.check(c1 == c2 and bool(c1), f"{ci.name}.{meth}:concat", f"{ci.module.name}:{ci.name}.{meth}", "concat hook", f"{meth} joins with {c1}, {asyncform} with {c2}", ci.loc(fn))
     ctx.floor("Template subclass overrides", n, 1)
 
@@ -159,8 +161,17 @@ def check(ctx: Ctx) -> str:
     probes = [n_ for n_ in ast.walk(av.node) if isinstance(n_, ast.FunctionDef) and n_.name == "is_async"]
     ok = len(probes) == 2
     if ok:
-        g_env = [g for g, pol in astq.guard_texts(av.node, probes[0]) if pol]
-        ok = "pass_arg is _PassArg.environment" in " ".join(g_env) and "args[0].is_async" in ast.unparse(probes[0]) and "args[0].environment.is_async" in ast.unparse(probes[1])
+        # which probe is defined on which side of `pass_arg is _PassArg.environment` (in either order)
+        side = {}
+        for pr in probes:
+            at = astq.guard_atoms(av.node, pr)
+            reads_env_attr = "args[0].environment.is_async" in ast.unparse(pr)
+            reads_direct = "args[0].is_async" in ast.unparse(pr) and not reads_env_attr
+            if ("pass_arg is _PassArg.environment", True) in at:
+                side["env"] = reads_direct
+            elif ("pass_arg is _PassArg.environment", False) in at:
+                side["other"] = reads_env_attr
+        ok = side == {"env": True, "other": True}
     ctx.check(ok, "probe", "async_utils:async_variant", "is_async probe", "the async probe must read args[0].is_async exactly for @pass_environment twins and args[0].environment.is_async otherwise", av.loc())
     ctx.check("need_eval_context = pass_arg is None" in s and "wrapper = pass_eval_context(wrapper)" in s and "args = args[1:]" in s, "evalctx", "async_utils:async_variant", "eval context injection", "twins without a pass decorator need an injected eval context that is dropped again before the call", av.loc())
     ctx.check("wrapper.jinja_async_variant = True" in s, "tag", "async_utils:async_variant", "wrapper tag", "the wrapper must carry jinja_async_variant = True (constant folding relies on it)", av.loc())
@@ -184,7 +195,11 @@ def check(ctx: Ctx) -> str:
     ctx.check(ok, "dispatch", "async_utils:async_variant", "dispatch", "the wrapper must call async_func in async mode and normal_func otherwise, with the same arguments", av.loc())
     aw = repo.func("async_utils:auto_await")
     s = ast.unparse(aw.node)
-    ctx.check("inspect.isawaitable(value)" in s and "return await" in s and astq.returns(aw.node)[-1].value is not None and ast.unparse(astq.returns(aw.node)[-1].value) == "value", "auto_await", "async_utils:auto_await", "await only awaitables", "auto_await must await awaitables and return everything else unchanged", aw.loc())
+    aw_rets = {ast.unparse(r_.value): astq.guard_atoms(aw.node, r_) for r_ in astq.returns(aw.node) if r_.value is not None}
+    awaited = [g for v_, g in aw_rets.items() if v_.startswith("await ")]
+    plain = aw_rets.get("value")
+    # the value is awaited exactly on the path where it is awaitable, and returned untouched where it is not
+    ctx.check(len(awaited) == 1 and ("inspect.isawaitable(value)", True) in awaited[0] and plain is not None and ("inspect.isawaitable(value)", False) in plain, "auto_await", "async_utils:auto_await", "await only awaitables", "auto_await must await awaitables and return everything else unchanged", aw.loc())
     from .c22 import fresh_list_rule
 
     fresh_list_rule(ctx, "R7")
